@@ -387,6 +387,26 @@ func init() {
 			}
 			return ex.C.False()
 		},
+		"strings.Split": func(ex *Exec, g *Goroutine, cs *callSite, args []Value) Value {
+			a, ok1 := args[0].(string)
+			b, ok2 := args[1].(string)
+			if !ok1 || !ok2 {
+				panic(unsupported("strings.Split on symbolic strings"))
+			}
+			parts := strings.Split(a, b)
+			arr := ex.newDense(types.Typ[types.String], len(parts))
+			for i, p := range parts {
+				arr.Dense[i] = p
+			}
+			n := ex.i64(int64(len(parts)))
+			return Slice{Arr: arr, Off: ex.i64(0), Len: n, Cap: n}
+		},
+		"hash/crc32.MakeTable": func(ex *Exec, g *Goroutine, cs *callSite, args []Value) Value {
+			return Ptr{Tag: &Opaque{Kind: "crc32table"}}
+		},
+		"time.Unix": func(ex *Exec, g *Goroutine, cs *callSite, args []Value) Value {
+			return Struct{ex.C.Const(BV(64), 0), args[0], Ptr{}}
+		},
 		"regexp.MustCompile": func(ex *Exec, g *Goroutine, cs *callSite, args []Value) Value {
 			return Ptr{Tag: &Opaque{Kind: "regexp", Data: args[0]}}
 		},
